@@ -54,9 +54,21 @@ def py_expr(rng, depth):
     return call_atom(rng, depth - 1)
 
 
+def sign_power(rng):
+    """-x ** n, 2 ** x ** 2, x ** -y: the shapes on which formula and Python precedence differ."""
+    x = ("var", rng.choice(NAMES[:6]), None)
+    n = ("lit", rng.choice([2, 3]), None)
+    r = rng.random()
+    if r < 0.5:
+        return ("bin", "**", ("un", "-", x), n)
+    if r < 0.75:
+        return ("bin", "**", ("bin", "**", n, x), n)
+    return ("un", "-", ("bin", "**", x, ("un", "-", n)))
+
+
 def call_atom(rng, depth):
-    nargs = rng.choice([0, 1, 1, 1, 2, 3])
-    args = [py_expr(rng, depth) for _ in range(nargs)]
+    nargs = rng.choice([0, 1, 1, 1, 2, 3, 4])
+    args = [sign_power(rng) if rng.random() < 0.2 else py_expr(rng, depth) for _ in range(nargs)]
     kws, used = [], set()
     for _ in range(rng.choice([0, 0, 1, 2])):
         k = rng.choice(["k", "df", "ref", "levels", "kw1"])
